@@ -43,6 +43,8 @@ def build(packages, profile="dev", features=None):
         cmd += ["-p", p]
     if profile == "release":
         cmd.append("--release")
+    elif profile != "dev":
+        cmd += ["--profile", profile]
     if features:
         cmd += ["--features", ",".join(features)]
     r = subprocess.run(cmd, cwd=HARNESS, env=env_offline(), capture_output=True, text=True)
@@ -51,7 +53,7 @@ def build(packages, profile="dev", features=None):
 
 
 def bin_path(name, profile="dev"):
-    return os.path.join(TARGET, "debug" if profile == "dev" else "release", name)
+    return os.path.join(TARGET, "debug" if profile == "dev" else profile, name)
 
 
 def run_parallel(cmds, timeout=None, max_par=NCPU):
